@@ -23,6 +23,40 @@ class NaNType:
 NaN = NaNType()
 
 
+def _only(k, allowed=(), what=""):
+    """a keyword the model does not implement must stop the analysis, never be ignored"""
+    bad = sorted(x for x in k if x not in allowed)
+    if bad:
+        raise AnalysisAbort(f"pandas model: keyword(s) {bad} of {what} are not modelled")
+
+
+def _duplicated(keys, keep):
+    """pandas' duplicated: True for every occurrence except the first (keep='first') / the last (keep='last') / none (keep=False)"""
+    def eq(a, b):
+        return len(a) == len(b) and all(cell_eq(x, y) for x, y in zip(a, b))
+    n = len(keys)
+    groups = []
+    for i, kx in enumerate(keys):
+        for g in groups:
+            if eq(keys[g[0]], kx):
+                g.append(i)
+                break
+        else:
+            groups.append([i])
+    out = [False] * n
+    for g in groups:
+        if len(g) > 1:
+            for i in g:
+                out[i] = True
+            if keep == "first":
+                out[g[0]] = False
+            elif keep == "last":
+                out[g[-1]] = False
+            elif keep is not False:
+                raise PyRaise("ValueError", None, 'keep must be either "first", "last" or False')
+    return out
+
+
 def is_nan(x):
     return x is NaN or (isinstance(x, Rat) and "nan" in x.symbols())
 
@@ -121,6 +155,7 @@ class Index(PyModel):
         return list(iter(self))
 
     def get_indexer(self, target, **k):
+        _only(k, (), 'Index.get_indexer')
         """position of each target label, -1 where the label is not in the index"""
         if self.multi:
             raise AnalysisAbort("MultiIndex.get_indexer is not modelled")
@@ -154,11 +189,13 @@ class MultiIndexType(PyModel):
         return isinstance(v, Index) and v.multi
 
     def from_product(self, iterables, names=None, **k):
+        _only(k, ('sortorder',), 'MultiIndex.from_product')
         its = [list(x) for x in iterables]
         names = list(names) if names is not None else [None] * len(its)
         return Index(list(itertools.product(*its)), names, multi=True)
 
     def from_arrays(self, arrays, names=None, **k):
+        _only(k, ('sortorder',), 'MultiIndex.from_arrays')
         cols = [list(a.data) if isinstance(a, SArr) else list(a) for a in arrays]
         names = list(names) if names is not None else [None] * len(cols)
         n = len(cols[0]) if cols else 0
@@ -167,6 +204,7 @@ class MultiIndexType(PyModel):
         return Index([tuple(c[i] for c in cols) for i in range(n)], names, multi=True)
 
     def from_tuples(self, tuples, names=None, **k):
+        _only(k, ('sortorder',), 'MultiIndex.from_tuples')
         tuples = [tuple(t) for t in tuples]
         return Index(tuples, list(names) if names is not None else [None] * (len(tuples[0]) if tuples else 0), multi=True)
 
@@ -241,6 +279,7 @@ class Series(PyModel):
         return Series(out, self.name, self.index)
 
     def astype(self, t, **k):
+        _only(k, ('copy', 'errors'), 'Series.astype')
         tn = getattr(t, "name", str(t))
         out = []
         for c in self.cells:
@@ -293,6 +332,7 @@ class Series(PyModel):
         return Series([any(cell_eq(c, v) for v in vals) for c in self.cells], self.name, self.index)
 
     def fillna(self, v, **k):
+        _only(k, (), 'Series.fillna')
         return Series([v if is_nan(c) else c for c in self.cells], self.name, self.index)
 
     def isna(self):
@@ -313,13 +353,7 @@ class Series(PyModel):
         return sum(1 for c in self.cells if c is True) if all(isinstance(c, bool) for c in self.cells) else AnalysisAbortRaise("Series.sum")
 
     def duplicated(self, keep="first"):
-        seen, out = [], []
-        for c in self.cells:
-            d = any(cell_eq(c, s) for s in seen)
-            out.append(d)
-            if not d:
-                seen.append(c)
-        return Series(out, self.name, self.index)
+        return Series(_duplicated([(c,) for c in self.cells], keep), self.name, self.index)
 
     def __invert__(self):
         return Series([not c for c in self.cells], self.name, self.index)
@@ -455,6 +489,7 @@ class Frame(PyModel):
         return Frame(self._cols.labels, self.rows, self.index.copy(), self._cols.name)
 
     def drop(self, labels=None, axis=0, index=None, columns=None, inplace=False, errors="raise", **k):
+        _only(k, (), 'DataFrame.drop')
         """label based: EVERY row / column carrying one of the labels goes"""
         if labels is not None:
             if axis in (1, "columns"):
@@ -527,6 +562,7 @@ class Frame(PyModel):
         return new
 
     def set_index(self, keys, inplace=False, **k):
+        _only(k, ('drop', 'verify_integrity'), 'DataFrame.set_index')
         if isinstance(keys, Index):
             if len(keys) != len(self.rows):
                 raise PyRaise("ValueError", None, f"Length mismatch: Expected {len(self.rows)} rows, received array of length {len(keys)}")
@@ -539,6 +575,7 @@ class Frame(PyModel):
         return self._result(new, inplace)
 
     def reset_index(self, inplace=False, drop=False, **k):
+        _only(k, (), 'DataFrame.reset_index')
         ix = self.index
         if drop:
             return self._result(Frame(self._cols.labels, self.rows, None, self._cols.name), inplace)
@@ -553,6 +590,7 @@ class Frame(PyModel):
         return self._result(new, inplace)
 
     def rename(self, columns=None, inplace=False, **k):
+        _only(k, ('errors', 'copy'), 'DataFrame.rename')
         m = columns or {}
         labs = []
         for l in self._cols.labels:
@@ -588,6 +626,7 @@ class Frame(PyModel):
         return Frame(col_labels, rows, Index(keys, icols, multi=len(icols) > 1), columns_name=columns)
 
     def melt(self, id_vars=None, value_vars=None, var_name=None, value_name="value", **k):
+        _only(k, ('ignore_index',), 'DataFrame.melt')
         id_vars = list(id_vars or [])
         value_vars = list(value_vars) if value_vars is not None else [c for c in self._cols.labels if not any(cell_eq(c, i) for i in id_vars)]
         ii = [self._ci(c) for c in id_vars]
@@ -600,13 +639,12 @@ class Frame(PyModel):
         return Frame(id_vars + [vn, value_name], rows)
 
     def duplicated(self, subset=None, keep="first"):
-        seen, out = [], []
-        for r in self.rows:
-            d = any(all(cell_eq(a, b) for a, b in zip(r, s)) for s in seen)
-            out.append(d)
-            if not d:
-                seen.append(r)
-        return Series(out, None, self.index)
+        if subset is None:
+            keys = [tuple(r) for r in self.rows]
+        else:
+            ii = [self._ci(c) for c in (list(subset) if isinstance(subset, (list, tuple, Columns, ObjVec)) else [subset])]
+            keys = [tuple(r[i] for i in ii) for r in self.rows]
+        return Series(_duplicated(keys, keep), None, self.index)
 
     def itertuples(self, index=True, name="Pandas"):
         if index:
@@ -638,15 +676,18 @@ class Frame(PyModel):
         return Series([any(bool(r[i]) for r in self.rows) for i in range(len(self._cols.labels))], None)
 
     def dropna(self, **k):
+        _only(k, (), 'DataFrame.dropna')
         keep = [i for i, r in enumerate(self.rows) if not any(is_nan(c) for c in r)]
         return Frame(self._cols.labels, [self.rows[i] for i in keep], Index([self.index.tuples[i] for i in keep], self.index.names, False, self.index.multi))
 
-    def drop_duplicates(self, **k):
-        d = self.duplicated().cells
+    def drop_duplicates(self, subset=None, keep="first", **k):
+        _only(k, (), 'DataFrame.drop_duplicates')
+        d = self.duplicated(subset=subset, keep=keep).cells
         keep = [i for i, x in enumerate(d) if not x]
         return Frame(self._cols.labels, [self.rows[i] for i in keep], Index([self.index.tuples[i] for i in keep], self.index.names, False, self.index.multi))
 
     def sort_values(self, by=None, **k):
+        _only(k, (), 'DataFrame.sort_values')
         by = list(by) if isinstance(by, (list, tuple)) else [by]
         ii = [self._ci(c) for c in by]
         order = sorted(range(len(self.rows)), key=lambda r: tuple(sort_key(self.rows[r][i]) for i in ii))
@@ -732,6 +773,7 @@ class DataFrameType(PyModel):
 
 
 def concat(frames, axis=0, ignore_index=False, **k):
+    _only(k, ('sort', 'copy'), 'pd.concat')
     frames = list(frames)
     cols = list(frames[0]._cols.labels)
     rows, tuples = [], []
@@ -746,6 +788,7 @@ def concat(frames, axis=0, ignore_index=False, **k):
 
 
 def setdiff1d(a, b, **k):
+    _only(k, ('assume_unique',), 'np.setdiff1d')
     """numpy.setdiff1d on python lists: np.asarray first (a mixture of str and int becomes an array of str), sorted unique"""
     def as_array(xs):
         xs = list(xs.labels) if isinstance(xs, Columns) else list(xs.cells) if isinstance(xs, ObjVec) else list(xs)
